@@ -29,6 +29,20 @@ def run(ctx):
         extra.append({'fn': 'gxv.jobs:run_oracles', 'args': {'text': gen.render(case), 'oracles': ['c05', 'c02'],
                                                              'tag': {'cell': list(cell), 'directed': 'redrilling' + ('-district-heating' if dh else '')}},
                       'timeout': 600})
+    # directed: the drawdown parameter of the analytical models over its whole documented range (0..0.2 for the single
+    # fracture, where the shipped examples and the grid stay below 3e-4 and the built-in default is 0.005; 0..0.2 1/year for
+    # the percentage model), heat end-uses so that a fast-cooling reservoir is still an accepted input
+    for i in range(ctx.pick(48, 400)):
+        rm = (3, 3, 4)[i % 3]
+        cell = (ctx.rng.choice([1, 2, 3]), 2, 9, rm)
+        case = gen.synth_case(ctx.rng, cell, costs=False, incentives=False, prices=False, addons=False, overpressure=False,
+                              sdac=False, nseg=ctx.rng.choice([1, 1, 2, 3]))
+        dp = [2e-4, 0.2, 0.005][i % 3] if i < 6 else gen._round(gen._logu(ctx.rng, 2e-4, 0.2), 6)
+        gen.cset(case, 'Drawdown Parameter', dp)
+        gen.cset(case, 'Maximum Drawdown', 1)
+        extra.append({'fn': 'gxv.jobs:run_oracles', 'args': {'text': gen.render(case), 'oracles': ['c05', 'c02'],
+                                                             'tag': {'cell': list(cell), 'directed': 'drawdown-parameter-range'}},
+                      'timeout': 600})
     grid_check(ctx, 'c05', nontrivial_note='c05-nontrivial', also=('c02',), quick_fast=300, quick_slow=16,
                thorough_fast=3000, thorough_slow=200, extra_jobs=extra,
                required={'bottom-hole-temperature': 400, 'effective-depth': 300, 'history-starts-at-bht': 300,
